@@ -27,6 +27,7 @@ def run(ctx):
     sparse.assembler(ctx)
     sparse.kernels(ctx)  # the element integrals the sparse scatter distributes: taken on the element, not its position
     spaces.coefficient_maps(ctx)
+    spaces.localised_inherit(ctx)
     pts = bary.ref_points(ctx)
     r = ctx.rule("REFINE-CHILDREN", "children of refine() / barycentric refinement are positively oriented and their areas sum to the parent's", 12)
     kids, mids_ok, dom_ok, ln = bary.refine_table(ctx)
